@@ -47,6 +47,11 @@ def integral(self):
             raise OverflowError(
                 "Integral calculation results in overflow error.  Consider scaling down step function values to accommodate."
             )
+    if self._integral_and_mean[0] is None:
+        # the overflow was met by an earlier call (of integral or mean), which cached the mean only
+        raise OverflowError(
+            "Integral calculation results in overflow error.  Consider scaling down step function values to accommodate."
+        )
     return self._integral_and_mean[0]
 
 
